@@ -56,6 +56,8 @@ type Result struct {
 	RootFrame *Frame
 	Reports   []*Report
 	N         *lin.Expr
+	Idle      *lin.Expr // the receiver's IdlePeriod() (nil when the type has none or it is not evaluable)
+	HasIdle   bool      // the receiver type declares IdlePeriod
 }
 
 type Interp struct {
@@ -75,6 +77,7 @@ type Interp struct {
 	ordCache map[*ast.FuncDecl]map[*ast.CallExpr]string
 	goOrd    map[*ast.FuncDecl]map[*ast.GoStmt]string
 	ParamDomain map[string]int64 // root int parameter name -> lower bound
+	DistinctLens bool            // every channel parameter has its own length and capacity symbol
 	MaxPaths int
 	callDepth int
 	states   map[*Stage]*stState
@@ -94,8 +97,10 @@ func domainFor(name string) (int64, bool, string) {
 		base = base[i+1:]
 	}
 	switch {
-	case name == "n":
+	case name == "n" || strings.HasPrefix(name, "n."):
 		return 0, true, "input length is non-negative"
+	case strings.HasPrefix(name, "cap."):
+		return 0, true, "a channel capacity is non-negative"
 	case strings.HasSuffix(name, "IdlePeriod()"):
 		return 0, true, "an idle period is a count of values"
 	case strings.HasSuffix(name, ".warmup"):
@@ -106,8 +111,10 @@ func domainFor(name string) (int64, bool, string) {
 		return 1, true, "TripleRsi needs at least one down day (ring capacity >= 1)"
 	case strings.Contains(base, "Period") && isIdent(base):
 		return 1, true, "a period is a window length >= 1"
-	case strings.HasPrefix(base, "len("):
+	case strings.HasPrefix(base, "len(") && strings.Contains(strings.ToLower(base), "strateg"):
 		return 1, true, "compound strategies wrap k >= 1 strategies"
+	case strings.HasPrefix(base, "len("):
+		return 0, true, "a slice length"
 	case strings.HasPrefix(base, "filter#") || strings.HasPrefix(base, "mul("):
 		return 0, true, "a count"
 	}
@@ -263,7 +270,7 @@ func (it *Interp) runRoot(fi *load.FuncInfo, script []int) (res *Result) {
 		res.Params = append(res.Params, v)
 		fr.Env.Define(p, v)
 	}
-	if directChanOps(fi.Decl.Body) {
+	if directChanOps(fi.Decl.Body, fi.Pkg.TypesInfo) {
 		// the function consumes or produces in its caller's goroutine: a synchronous stage
 		st := it.newStage("sync", fr, fi.Decl.Pos())
 		fr.Stage = st
@@ -274,6 +281,12 @@ func (it *Interp) runRoot(fi *load.FuncInfo, script []int) (res *Result) {
 	}
 	res.Ret = fr.Ret
 	markReturned(fr.Ret)
+	if o := res.Recv; o != nil && it.hasMethod(o, "IdlePeriod") {
+		res.HasIdle = true
+		if e, ok := it.IdleOf(fr, o); ok {
+			res.Idle = lin.Simplify(it.G, e)
+		}
+	}
 	for i := range res.Undecided {
 		// every undecided site reached while interpreting from this root is attributed to it
 		res.Undecided[i].Root = true
@@ -282,12 +295,18 @@ func (it *Interp) runRoot(fi *load.FuncInfo, script []int) (res *Result) {
 }
 
 // directChanOps: the body sends, receives or ranges over a channel outside any go statement or function literal.
-func directChanOps(b *ast.BlockStmt) bool {
+func directChanOps(b *ast.BlockStmt, info *types.Info) bool {
 	found := false
 	ast.Inspect(b, func(m ast.Node) bool {
 		switch y := m.(type) {
 		case *ast.SendStmt:
 			found = true
+		case *ast.RangeStmt:
+			if t := info.TypeOf(y.X); t != nil {
+				if _, ok := t.Underlying().(*types.Chan); ok {
+					found = true
+				}
+			}
 		case *ast.UnaryExpr:
 			if y.Op == token.ARROW {
 				found = true
@@ -327,6 +346,10 @@ func (it *Interp) symbolicParam(t types.Type, name string, fr *Frame, pos token.
 		s.Len = it.res.N
 		s.Lead = lin.C(0)
 		s.Cap = lin.C(0)
+		if it.DistinctLens {
+			s.Len = it.Sym("n." + name)
+			s.Cap = it.Sym("cap." + name)
+		}
 		s.Param = name
 		s.Pending = false
 		it.res.ParamStreams = append(it.res.ParamStreams, s)
@@ -345,6 +368,10 @@ func (it *Interp) symbolicParam(t types.Type, name string, fr *Frame, pos token.
 			s.Len = it.res.N
 			s.Lead = lin.C(0)
 			s.Cap = lin.C(0)
+			if it.DistinctLens {
+				s.Len = it.Sym("n." + name)
+				s.Cap = it.Sym("cap." + name)
+			}
 			s.Param = name
 			s.Homog = true
 			s.Pending = false
@@ -785,8 +812,9 @@ func (it *Interp) execRange(fr *Frame, x *ast.RangeStmt) ctl {
 		}
 		if c.Homog {
 			if fr.Stage != nil && containsChanOp(x.Body) && !onlyDefers(x.Body) {
-				// handled by the stage loop machinery only when nested in a loop
-				it.undecided(x.Pos(), "range over a symbolic slice with channel operations at stage top level")
+				// a loop over a slice of symbolic length: a counted loop
+				bind(Opaque{Why: "index"}, c.Rep)
+				it.stageLoop(fr, c.Len, nil, nil, x.Body, x.Pos(), false)
 				return ctlNone
 			}
 			bind(Opaque{Why: "index"}, c.Rep)
